@@ -382,7 +382,7 @@ def decode_result(line, herestr=False):
 # ------------------------------------------------------------------ bash second opinion
 
 BASH_PRELUDE = r'''
-zz() { printf 'CAP %d' $#; local a; for a in "$@"; do printf ' '; printf '%s' "$a" | od -An -v -tx1 | tr -d ' \n'; [ -z "$a" ] && printf -- '-'; done; printf '\n'; }
+zz() { printf 'CAP\0%d\0' $#; local a; for a in "$@"; do printf '%s\0' "$a"; done; }
 '''
 
 
@@ -458,23 +458,29 @@ class BashRunner:
         def one(chunk):
             parts = [BASH_PRELUDE, 'run_case() { ( cd "$1" || exit 3; eval "$2" ) 2>/dev/null; }\n']
             for i in chunk:
-                parts.append("printf 'CASE %d\\n'\nrun_case %s %s\n" % (i, sq(self.dir_for(cases[i].names)), sq(scripts[i])))
+                parts.append("printf 'CASE\\0%%s\\0' %d\nrun_case %s %s\n" % (i, sq(self.dir_for(cases[i].names)), sq(scripts[i])))
             try:
                 p = subprocess.run(["/usr/bin/bash", "--norc", "--noprofile", "-c", "".join(parts)],
                                    stdout=subprocess.PIPE, stderr=subprocess.DEVNULL,
                                    env={"LC_ALL": "C.UTF-8", "PATH": "/usr/bin:/bin"}, timeout=300)
             except subprocess.TimeoutExpired:
                 return [(i, ("TIMEOUT",)) for i in chunk]
-            res, state = {}, {"cur": None, "caps": []}
-            for line in p.stdout.decode("latin-1").split("\n"):
-                if line.startswith("CASE "):
-                    if state["cur"] is not None:
-                        res[state["cur"]] = state["caps"]
-                    state = {"cur": int(line[5:]), "caps": []}
-                elif line.startswith("CAP "):
-                    state["caps"].append(line)
-            if state["cur"] is not None:
-                res[state["cur"]] = state["caps"]
+            # NUL-framed stream: CASE k  { CAP n arg*n }*   (only builtins: no fork per argument)
+            toks = p.stdout.split(b"\0")
+            res, cur, k = {}, None, 0
+            try:
+                while k < len(toks) - 1:
+                    t = toks[k]
+                    if t == b"CASE":
+                        cur = int(toks[k + 1]); res[cur] = []; k += 2
+                    elif t == b"CAP" and cur is not None:
+                        n = int(toks[k + 1])
+                        res[cur].append([x.decode("utf-8", "replace") for x in toks[k + 2:k + 2 + n]])
+                        k += 2 + n
+                    else:
+                        k += 1          # stray output of the case itself
+            except (ValueError, IndexError):
+                pass
             ret = []
             for i in chunk:
                 cs = res.get(i)
@@ -483,8 +489,7 @@ class BashRunner:
                 elif len(cs) != 1:
                     ret.append((i, ("ERR",)))
                 else:
-                    fields = ["" if h == "-" else bytes.fromhex(h).decode("utf-8", "replace") for h in cs[0].split(" ")[2:]]
-                    ret.append((i, ("OK", fields)))
+                    ret.append((i, ("OK", cs[0])))
             return ret
         with ThreadPoolExecutor(jobs) as ex:
             for ret in ex.map(one, chunks):
